@@ -132,6 +132,38 @@ def c07_grid_random_state_none():
     return not same, f"GridSearch(random_state=None) reproduced by random_state=random_seed={a.random_seed}: {same}"
 
 
+def _nonfinite_startup(cls_name, **kw):
+    import gradient_free_optimizers as g
+    space = {"x": np.arange(-5, 6), "y": np.arange(-5, 6)}
+    out = []
+    for bad in (np.nan, np.inf, -np.inf):
+        calls = [0]
+
+        def f(p):
+            calls[0] += 1
+            return bad if calls[0] <= 9 else -(p["x"] ** 2 + p["y"] ** 2)
+        try:
+            opt = getattr(g, cls_name)(space, initialize={"random": 3}, random_state=1, **kw)
+            opt.search(f, n_iter=25, **V)
+            if len(opt.search_data) != 25:
+                out.append(f"{bad}: {len(opt.search_data)} rows")
+        except Exception as e:  # noqa
+            out.append(f"{bad}: raised {type(e).__name__}")
+    return bool(out), f"{cls_name} with 9 non-finite scores first: " + ("; ".join(out) or "25 rows each")
+
+
+def c15_forest_no_valid_sample():
+    return _nonfinite_startup("ForestOptimizer")
+
+
+def c15_lipschitz_no_valid_sample():
+    return _nonfinite_startup("LipschitzOptimizer")
+
+
+def c15_pattern_exhausted():
+    return _nonfinite_startup("PatternSearch", n_positions=1)
+
+
 PROBES = {k: v for k, v in list(globals().items()) if k.startswith("c") and callable(v) and k[1:3].isdigit()}
 
 if __name__ == "__main__":
